@@ -187,7 +187,16 @@ func runCors(raw Sx) (Sx, Sx) {
 		twin := rec1.Code == rec2.Code && rec1.Body.String() == rec2.Body.String() && len(pr1.invoked) == len(pr2.invoked) &&
 			SxString(headerSx(rec1.Header(), all)) == SxString(headerSx(rec2.Header(), all))
 		acl := headerSx(rec1.Header(), func(k string) bool { return strings.HasPrefix(k, "Access-Control-") })
-		obs = append(obs, L(acl, B(len(pr1.invoked) > 0), B(twin)))
+		// is the requested method really routable at this URL (on the filter-less twin)?
+		probeStatus := 0
+		if m := q.Get("Access-Control-Request-Method"); m != "" {
+			qq := *q
+			qq.Method = m
+			rec3 := httptest.NewRecorder()
+			c2.Dispatch(rec3, qq.HTTP())
+			probeStatus = rec3.Code
+		}
+		obs = append(obs, L(acl, B(len(pr1.invoked) > 0), B(twin), probeStatus))
 		o.Lower(q.Get("Origin"))
 		for _, h := range strings.Split(q.Get("Access-Control-Request-Headers"), ",") {
 			o.Lower(strings.Trim(h, " "))
